@@ -179,6 +179,12 @@ let run_sim (c : Caseio.case) (r : Caseio.case option) with_sensor =
             match linear_model c (Some r) d with
             | None -> ()
             | Some (h, lr, m) ->
+              let (inp, meas) = c16_sensor_descs fops no_sq (n_ m) (n_ d) h (n_ d) (n_ (Caseio.meta_int c "rr")) in
+              Caseio.out_int "input_size" (int_of_nat (desc_total inp));
+              Caseio.out_int "input_noise" (int_of_nat inp.d_noise);
+              Caseio.out_int "meas_size" (int_of_nat (desc_total meas));
+              Caseio.out_int "meas_lin" (int_of_nat meas.d_lin);
+              Caseio.out_int "meas_circ" (int_of_nat meas.d_circ);
               let zs2 = if Caseio.has r "draws2" then objs_of_row (Caseio.get_mat r "draws2") else [] in
               let ops = List.map (fun s -> if s = "f" then SensFreeze else if s = "r" then SensReset else SensOther) (Caseio.get_word c "ops") in
               List.iteri
